@@ -335,3 +335,20 @@ func (t *txn) Discard() {
 		d.Log.Add("TxDiscard", "tx", t.id)
 	}
 }
+
+// Tagged is a view of a DB whose transactions are labelled in the trace ("who began it"), so that
+// e.g. the transactional import of provisioning can be told apart from the persister's flushes.
+type Tagged struct {
+	*DB
+	Tag string
+}
+
+func (t Tagged) NewTransaction(ctx context.Context, update bool) (database.Transaction, context.Context, error) {
+	tx, ctx2, err := t.DB.NewTransaction(ctx, update)
+	if err == nil {
+		if x, ok := tx.(*txn); ok {
+			t.DB.Log.Add("TxTag", "tx", x.id, "by", t.Tag)
+		}
+	}
+	return tx, ctx2, err
+}
